@@ -1137,7 +1137,7 @@ class Object( object ):
                 result	       += UINT.produce( len( data.get_attribute_list )) # number of attribute responses
                 for a_id in data.get_attribute_list:
                     result     += UINT.produce( a_id )
-                    if str(a_id) not in self.attribute:
+                    if not isinstance( self.attribute.get( str(a_id) ), Attribute ): # (number 0 is the Object)
                         result += UINT.produce( 0x16 ) # status: Object does not exist
                     else:
                         result += UINT.produce( 0x00 ) # status: OK
